@@ -8,6 +8,7 @@ import (
 	"io"
 	"net/http"
 	"net/http/httptest"
+	"strconv"
 	"strings"
 
 	"verif/vlib"
@@ -231,6 +232,14 @@ func main() {
 			return // documented partial output; recorded for contrast only
 		}
 		replay := map[string]any{"config": cfg.String(), "component": cm.String(), "sequence": seq, "status": w.status, "content_type": w.ct(), "body_len": len(body)}
+		// a Content-Length announced at commit time must be the length of what is then written (a real connection
+		// truncates or breaks otherwise; a recorder does not notice)
+		if w.committed != nil {
+			if cl := w.committed.Get("Content-Length"); cl != "" && cl != strconv.Itoa(len(body)) {
+				run.Violation("content-length", fmt.Sprintf("%s %s [%s]: Content-Length %s announced, %d body bytes written (status %d)", cfg, cm, seq, cl, len(body), w.status), replay)
+				return
+			}
+		}
 		if !cm.fail {
 			if w.status != wantStatus || w.ct() != wantCT || body != cm.doc() || w.writeHeader > 1 {
 				run.Violation("success-response", fmt.Sprintf("%s %s [%s]: got status %d ct %q body %d bytes; want %d %q %d bytes", cfg, cm, seq, w.status, w.ct(), len(body), wantStatus, wantCT, len(cm.doc())), replay)
